@@ -17,7 +17,10 @@ import (
 	"path/filepath"
 	"runtime/debug"
 	"sort"
+	"strconv"
 	"strings"
+	"sync"
+	"time"
 )
 
 // J is a JSON object.
@@ -84,6 +87,36 @@ func RegGen(prop string, rule string, g Gen) {
 }
 func RegMonitor(prop string, m Monitor) { monitors[prop] = append(monitors[prop], m) }
 
+// The watchdog: every call into the repository is announced with watchOp, and a call that has not come back
+// after hangLimit is reported as a violation with that call as the replay (a hang is a failure the caller sees;
+// without this the run would only end at the driver's timeout, with no input to show).
+var watch struct {
+	mu    sync.Mutex
+	op    J
+	since time.Time
+	depth int
+}
+
+var hangLimit = 300 * time.Second
+
+// watchOp announces a call into the repository; the returned func marks its return.
+func watchOp(op J) func() {
+	watch.mu.Lock()
+	prev, prevSince := watch.op, watch.since
+	watch.op, watch.since = op, time.Now()
+	watch.depth++
+	watch.mu.Unlock()
+	return func() {
+		watch.mu.Lock()
+		watch.op, watch.since = prev, prevSince
+		if prev != nil {
+			watch.since = time.Now() // the outer call gets a fresh allowance: it is making progress
+		}
+		watch.depth--
+		watch.mu.Unlock()
+	}
+}
+
 // runOp calls the implementation with a recover() around it.
 func runOp(op J) (res any) {
 	name, _ := op["op"].(string)
@@ -91,6 +124,7 @@ func runOp(op J) (res any) {
 	if !ok {
 		return J{"harness-error": "unknown op " + name}
 	}
+	defer watchOp(op)()
 	defer func() {
 		if r := recover(); r != nil {
 			res = J{"panic": true, "panic_msg": fmt.Sprint(r), "stack": firstLines(string(debug.Stack()), 24)}
@@ -186,6 +220,32 @@ func main() {
 	seen := map[[32]byte]bool{}
 	shrunkSig := map[string]bool{}
 	var ntHashes []string // hashes of the distinct non-trivial cases (unioned over the passes of a thorough run)
+	var finishOnce sync.Once
+	finish := func() {
+		finishOnce.Do(func() { finishRun(&rep, prop, out, opsW, implW, opsF, implF, &ntHashes) })
+	}
+	if v := os.Getenv("VERIF_HANG_LIMIT_S"); v != "" {
+		if n, err := strconv.Atoi(v); err == nil && n > 0 {
+			hangLimit = time.Duration(n) * time.Second
+		}
+	}
+	go func() {
+		for {
+			time.Sleep(time.Second)
+			watch.mu.Lock()
+			op, since := watch.op, watch.since
+			watch.mu.Unlock()
+			if op == nil || time.Since(since) < hangLimit {
+				continue
+			}
+			// the main goroutine is inside the repository and has been for hangLimit: it is not touching rep
+			rep.Violations = append(rep.Violations, Violation{Sig: *prop + "/hang",
+				Desc: fmt.Sprintf("a call into the repository did not return within %s (the harness gave up waiting); the op is the call", hangLimit),
+				Op: normalise(op).(map[string]any), Res: J{"hang": true}})
+			finish()
+			os.Exit(0)
+		}
+	}()
 	// a sample of the run is evaluated a second time at the very end: the callbacks and codecs under test
 	// are functions of their arguments, so a result that depends on what was called before is a defect
 	// (package-level buffers, pools, caches) even if each single evaluation looks right
@@ -303,6 +363,8 @@ func main() {
 							Op: J{"op": "none", "note": "panic inside a generator; see the stack in desc"}, Res: nil})
 					}
 				}()
+				// a generator that calls into the repository without announcing the call still gets a deadline
+				defer watchOp(J{"op": "none", "note": fmt.Sprintf("generator %d of %s was building inputs (an unannounced call into the repository)", i, *prop)})()
 				gen(g)
 			}()
 		}
@@ -319,6 +381,11 @@ func main() {
 			}
 		}
 	}
+	finish()
+}
+
+// finishRun writes the report files; it is a variable so that the watchdog can end a run that hangs.
+func finishRun(rep *report, prop, out *string, opsW, implW *bufio.Writer, opsF, implF *os.File, ntHashes *[]string) {
 	rep.Rule = rules[*prop]
 	opsW.Flush()
 	implW.Flush()
@@ -336,7 +403,7 @@ func main() {
 	}
 	b, _ := json.MarshalIndent(rep, "", " ")
 	os.WriteFile(filepath.Join(*out, "report.json"), b, 0o644)
-	os.WriteFile(filepath.Join(*out, "nontrivial_hashes.txt"), []byte(strings.Join(ntHashes, "\n")), 0o644)
+	os.WriteFile(filepath.Join(*out, "nontrivial_hashes.txt"), []byte(strings.Join(*ntHashes, "\n")), 0o644)
 	keys := make([]string, 0, len(rep.Tags))
 	for k := range rep.Tags {
 		keys = append(keys, k)
